@@ -46,7 +46,7 @@ func richDoc(di int, present [6]bool) jx.Obj {
 	s := strconv.Itoa(di)
 	d := jx.Obj{"swagger": "2.0"}
 	if present[0] {
-		info := jx.Obj{"title": "title" + s, "version": "v" + s, "description": "desc" + s, "x-info": "i" + s}
+		info := jx.Obj{"title": "title" + s, "version": "v" + s, "description": "desc" + s, "x-info": "i" + s, "x-Info-Owner": "o" + s}
 		if di == 0 {
 			delete(info, "description") // an empty scalar to be filled
 		}
@@ -76,6 +76,7 @@ func richDoc(di int, present [6]bool) jx.Obj {
 	}
 	if present[5] {
 		d["x-shared"] = "doc" + s
+		d["x-Shared-ID"] = "doc" + s
 		d["x-only"+s] = true
 	}
 	return d
@@ -116,7 +117,7 @@ func putKeys(d jx.Obj, section string, keys []string, di int) {
 		d["security"] = l
 	case "ext:top":
 		for _, k := range keys {
-			d["x-"+k] = "doc" + s
+			d["x-Key-"+k] = "doc" + s
 		}
 	case "ext:info", "ext:contact", "ext:license":
 		info := jx.AsObj(d["info"])
@@ -131,7 +132,7 @@ func putKeys(d jx.Obj, section string, keys []string, di int) {
 			info[part] = tgt
 		}
 		for _, k := range keys {
-			tgt["x-"+k] = "doc" + s
+			tgt["x-Key-"+k] = "doc" + s
 		}
 	default:
 		m := jx.Obj{}
@@ -159,7 +160,7 @@ func rndMixDoc(rng *rand.Rand, di int) jx.Obj {
 		d["basePath"] = "/base" + s
 	}
 	extKeys := func(o jx.Obj) {
-		for _, k := range []string{"x-a", "x-b", "x-c"} {
+		for _, k := range []string{"x-a", "x-B-Mixed", "x-c", "X-Upper"} {
 			if gen.Chance(rng, 40) {
 				o[k] = "doc" + s
 			}
@@ -344,10 +345,15 @@ func (e mixinEngine) Gen(prop, tier string, seed uint64, idx int) *runner.Case {
 		}
 		if mm {
 			docs = []jx.Obj{mk(0, "other", "/p0"), mk(1, "same", "/p1"), mk(2, "same", "/p2")}
+			if idless%2 == 1 {
+				docs[0] = jx.Obj{"swagger": "2.0", "info": jx.Obj{"title": "no paths at all"}}
+			}
 		} else {
 			docs = []jx.Obj{mk(0, "same", "/p0"), mk(1, "same", "/p1"), mk(2, "same", "/p2")}
 		}
-		addIdless(docs[0], 0, idless/2)
+		if docs[0]["paths"] != nil {
+			addIdless(docs[0], 0, idless/2)
+		}
 		addIdless(docs[1], 1, idless-idless/2)
 		addIdless(docs[2], 2, idless)
 	default:
